@@ -18,8 +18,25 @@ REPO = os.environ.get("VERIF_REPO", "/repo")
 VERIF = os.path.dirname(os.path.dirname(os.path.abspath(__file__)))
 # VERIF_REPO=<scratch worktree> redirects a check to another copy of the repository (used to try
 # seeded changes without touching /repo); it then gets its own cache so builds never mix.
-CACHE = os.path.join(VERIF, ".cache") if REPO == "/repo" else os.path.join(
-    VERIF, ".cache", "alt-" + hashlib.sha1(REPO.encode()).hexdigest()[:10])
+CACHE = os.path.join(VERIF, ".cache") if REPO == "/repo" else (os.environ.get("VERIF_ALT_CACHE") or os.path.join(
+    VERIF, ".cache", "alt-" + hashlib.sha1(REPO.encode()).hexdigest()[:10]))
+# Scratch-tree runs only (never the registered checks, which run against /repo): when the scratch worktree and its
+# cache share a parent directory (tools/try_seeded.py lays them out as <root>/wt and <root>/cache) and ccache is
+# installed, compile through ccache with that parent as base directory, so the relative paths - and hence the cache
+# keys - are the same for every scratch tree and only the files a seeded change touches are really compiled.
+import shutil as _sh
+CCACHE_ROOT = None
+if REPO != "/repo" and _sh.which("ccache") and os.path.dirname(REPO.rstrip("/")) == os.path.dirname(CACHE.rstrip("/")):
+    CCACHE_ROOT = os.path.dirname(REPO.rstrip("/"))
+
+
+def ccache_args_env():
+    """(extra cmake args, env) for scratch-tree builds through ccache; ([], None) otherwise."""
+    if not CCACHE_ROOT:
+        return [], None
+    env = dict(os.environ, CCACHE_BASEDIR=CCACHE_ROOT, CCACHE_NOHASHDIR="1", CCACHE_MAXSIZE="20G",
+               CCACHE_SLOPPINESS="time_macros,include_file_mtime,include_file_ctime")
+    return ["-DCMAKE_CXX_COMPILER_LAUNCHER=ccache"], env
 BUILD = os.path.join(CACHE, "ompl-build")
 MANIFEST = os.path.join(CACHE, "ompl-build.manifest.json")
 GUARD = "OMPL_VERIF"
@@ -85,7 +102,8 @@ def _configure():
         "-DOMPL_BUILD_TESTS=OFF", "-DOMPL_BUILD_DEMOS=OFF", "-DOMPL_BUILD_PYBINDINGS=OFF",
         "-DOMPL_BUILD_PYTESTS=OFF", "-DOMPL_REGISTRATION=OFF",
     ]
-    r = _run(cmd)
+    extra, env = ccache_args_env()
+    r = _run(cmd + extra, env=env)
     if r.returncode != 0:
         raise RuntimeError("cmake configure failed:\n" + r.stdout[-4000:])
 
@@ -156,7 +174,7 @@ def ensure_built(log=lambda s: None):
         if rebuilt != 0 or not os.path.isfile(lib):
             if os.path.isfile(MANIFEST):
                 os.remove(MANIFEST)
-            r = _run(["cmake", "--build", BUILD, "--target", "ompl", "-j", str(os.cpu_count() or 8)])
+            r = _run(["cmake", "--build", BUILD, "--target", "ompl", "-j", str(os.cpu_count() or 8)], env=ccache_args_env()[1])
             if r.returncode != 0:
                 raise RuntimeError("libompl build failed:\n" + r.stdout[-6000:])
         json.dump(cur, open(MANIFEST, "w"))
